@@ -80,6 +80,7 @@ import (
 	"os"
 	"path/filepath"
 	"regexp"
+	"sort"
 	"strings"
 
 	"honnef.co/go/tools/analysis/lint"
@@ -276,6 +277,11 @@ func (o *sarifFormatter) Format(checks []*lint.Analyzer, diagnostics []diagnosti
 				},
 			})
 	}
+	// The checks come out of a map; list the rules in a fixed order so
+	// that the same input produces the same document on every run.
+	sort.Slice(run.Tool.Driver.Rules, func(i, j int) bool {
+		return run.Tool.Driver.Rules[i].ID < run.Tool.Driver.Rules[j].ID
+	})
 
 	for _, p := range diagnostics {
 		r := sarif.Result{
